@@ -3,6 +3,10 @@
 # Offline: modules come from the local module cache / vendored copies.
 set -e
 cd "$(dirname "$0")/../sim"
-export GOFLAGS=-mod=mod GOPROXY=off GOSUMDB=off GOTOOLCHAIN=local CGO_ENABLED=0
+export GOFLAGS=-mod=mod GOPROXY=off GOSUMDB=off GOTOOLCHAIN=local
 cp /repo/go.sum ./go.sum 2>/dev/null || true
-go build -tags verif -o ../bin/utxosim . 
+CGO_ENABLED=0 go build -tags verif -o ../bin/utxosim .
+# Second binary with the Go race detector (C12 engine sched-race).  Needs cgo and a C
+# compiler; if it cannot be built the engine is skipped and says so.
+rm -f ../bin/utxosim-race
+CGO_ENABLED=1 go build -race -tags verif -o ../bin/utxosim-race . 2>/dev/null || echo "note: race build unavailable; C12 engine sched-race will be skipped" >&2
